@@ -46,16 +46,20 @@ func c18Base() *spec.Program {
 	m("RootC", nil, f("CStr", 1, spec.KString), f("CVals", 2, spec.KMessage, ref("MV"), mp, nn))
 	m("RootD", []string{"Pick"}, f("DStr", 1, spec.KString), f("PickS", 2, spec.KString, oo("Pick")), f("PickO", 3, spec.KMessage, ref("OB"), oo("Pick")))
 	m("RootE", nil, f("EStr", 1, spec.KString), f("EmbX", 2, spec.KMessage, ref("EmbX"), emb, nn))
+	// an embedded message that is not at the root: below a list element and below a map value
+	m("EmbY", nil, f("YStr", 1, spec.KString), f("YNum", 2, spec.KInt64))
+	m("Holder", nil, f("HStr", 1, spec.KString), f("EmbY", 2, spec.KMessage, ref("EmbY"), emb, nn))
+	m("RootG", nil, f("GStr", 1, spec.KString), f("GItems", 2, spec.KMessage, ref("Holder"), list), f("GMap", 3, spec.KMessage, ref("Holder"), mp, nn))
 	m("RootBExt", nil, f("BxStr", 1, spec.KString), f("BxInner", 2, spec.KMessage, ref("Inner")))
 	m("RootD2", nil, f("D2Str", 1, spec.KString))
 	m("Clean", nil, f("Name", 1, spec.KString), f("Count", 2, spec.KInt64), f("Inner", 3, spec.KMessage, ref("Inner"), nn))
 	m("Unselected", nil, f("UStr", 1, spec.KString))
 	p.Config = spec.Config{
-		Types:          []string{"RootAExt", "RootA", "RootF", "RootB", "RootC", "RootD", "RootE", "RootBExt", "RootD2", "Clean"},
+		Types:          []string{"RootAExt", "RootA", "RootF", "RootB", "RootC", "RootD", "RootE", "RootG", "RootBExt", "RootD2", "Clean"},
 		ComputedFields: []string{"Clean.Count"},
 		// configured although duration_type is not: a field cast to it has no mapping
 		DurationCustomType: spec.DurationCastName,
-		NameOverrides:  map[string]string{"Clean.Name": "clean_name"},
+		NameOverrides:      map[string]string{"Clean.Name": "clean_name"},
 	}
 	return p
 }
@@ -140,6 +144,8 @@ var badPositions = []badPos{
 	{name: "oneof-branch-message", msg: "OB", pathKeys: func(f string) []string { return []string{"RootD.PickO." + f} }},
 	{name: "oneof-branch-direct", msg: "RootD", oneof: "Pick", pathKeys: func(f string) []string { return []string{"RootD." + f} }},
 	{name: "embedded", msg: "EmbX", pathKeys: nil},
+	// README: options below an embedded field are keyed by the name of the embedding message
+	{name: "embedded-in-element", msg: "EmbY", pathKeys: func(f string) []string { return []string{"Holder." + f} }},
 }
 
 func withBad(base *spec.Program, pos badPos, k badKind) (*spec.Program, string) {
